@@ -7,7 +7,7 @@ From BV Require Import Base.Prelude Model.Block Model.ForkDB Model.Forkable Mode
   Proofs.Fk.StoreFacts Proofs.Fk.WalkFacts Proofs.Fk.LoopFacts Proofs.Fk.StoreChange Proofs.Fk.SwitchFacts
   Proofs.Fk.FixedLib Proofs.Fk.MovingLibStore Proofs.Fk.MovingLibWalk Proofs.Fk.MovingLibLoops Proofs.Fk.MovingLibInv
   Proofs.Fk.MovingLibFin Proofs.Fk.MovingLibLookups Proofs.Fk.FailPrefix Proofs.Fk.FailRun Proofs.C18_Proofs
-  Spec.C01_Spec Spec.C01_Moving_Spec Proofs.C02_Proofs Proofs.C18_MovingProofs.
+  Spec.C01_Spec Spec.C01_Moving_Spec Spec.C01_Roots_Spec Proofs.C02_Proofs Proofs.C01_Roots_Proofs Proofs.C18_MovingProofs.
 Local Open Scope N_scope.
 
 (* ================================================================ reflection of the correspondence test *)
@@ -120,7 +120,7 @@ Section Follow.
   Hypothesis Hundo : f_undo (c_filter cfg) = true.
   Hypothesis Hirr : f_irr (c_filter cfg) = true.
 
-  Hypothesis U_id : forall b, In b U -> bid b <> 0 /\ bparent b <> 0 /\ bid b <> bparent b.
+  Hypothesis U_id : forall b, In b U -> bid b <> 0 /\ bid b <> bparent b.
   Hypothesis U_uniq : forall x y, In x U -> In y U -> bid x = bid y -> x = y.
   Hypothesis U_up : forall x y, In x U -> In y U -> bparent x = bid y -> bnum y < bnum x.
   Hypothesis L_id : ri r0 <> 0.
@@ -473,22 +473,22 @@ Proof.
   intros k Hsc Hcor. unfold c18_prop. apply orb_true_iff. right.
   unfold c18_moving_thm_scope in Hsc. unfold fk_corresponds in Hcor.
   assert (Hgen : forall r0, rooted_mode r0 (k_mode k) ->
-            filt_nu k && filt_irr k && moving_scope_b r0 (k_hist k) &&
+            filt_nu k && filt_irr k && moving_scope2_b r0 (k_hist k) &&
             forallb (fun b => memN (bid b) (k_qi k) && memN (bnum b) (k_qh k)) (k_hist k) = true ->
             c18_follow false (c_kept (k_cfg k)) (ri r0) r0 (k_hist k) (k_qh k) (k_qi k)
                        (mkFM [] 0 r0 false [] []) 0 [] (k_hist k) (k_obs k) = true).
   { intros r0 Hm H. apply andb_true_iff in H as [H Hqs]. apply andb_true_iff in H as [H Hscope].
     apply andb_true_iff in H as [Hnu Hirr]. unfold filt_nu in Hnu. apply andb_true_iff in Hnu as [Hnew Hundo].
     unfold filt_irr in Hirr. rewrite forallb_forall in Hqs.
-    destruct (scope_parts r0 (k_hist k) Hscope) as (_ & _ & Hr0 & _).
+    destruct (scope2_parts r0 (k_hist k) Hscope) as (_ & _ & Hr0 & _).
     apply (follow_run (k_hist k) r0 (nofail (k_cfg k)) eq_refl Hnew Hundo Hirr
-             (bridge_id _ (m_wf r0 _ Hscope) (m_par r0 _ Hscope)) (bridge_uniq _ (m_wf r0 _ Hscope)) (bridge_up _ (m_wf r0 _ Hscope))
-             Hr0 (fun y Hy => proj2 (proj2 (mb_parts r0 _ Hscope y Hy))) (fun x Hx => proj1 (proj2 (mb_parts r0 _ Hscope x Hx)))
-             (bridge_decl r0 _ Hscope) (k_qh k) (k_qi k)) with (cfgF := k_cfg k) (s := fs_init (k_mode k)) (Fin := []) (S := []).
+             (bridge_id _ (m2_wf r0 _ Hscope)) (bridge_uniq _ (m2_wf r0 _ Hscope)) (bridge_up _ (m2_wf r0 _ Hscope))
+             Hr0 (fun y Hy => proj2 (mb2_parts r0 _ Hscope y Hy)) (fun x Hx => proj1 (mb2_parts r0 _ Hscope x Hx))
+             (bridge2_decl r0 _ Hscope) (k_qh k) (k_qi k)) with (cfgF := k_cfg k) (s := fs_init (k_mode k)) (Fin := []) (S := []).
     - intros x Hx. specialize (Hqs x Hx). apply andb_true_iff in Hqs as [H1 H2]. apply memN_In in H1, H2. auto.
     - reflexivity.
-    - apply inv_init; [exact Hr0 | exact (fun y Hy => proj2 (proj2 (mb_parts r0 _ Hscope y Hy)))
-                       | exact (fun x Hx => proj1 (proj2 (mb_parts r0 _ Hscope x Hx))) | exact Hm].
+    - apply inv_init; [exact Hr0 | exact (fun y Hy => proj2 (mb2_parts r0 _ Hscope y Hy))
+                       | exact (fun x Hx => proj1 (mb2_parts r0 _ Hscope x Hx)) | exact Hm].
     - apply ext_init. exact Hm.
     - constructor.
       + constructor; cbn; auto; try (intros id []). destruct Hm as [-> | ->]; reflexivity.
@@ -538,7 +538,10 @@ Qed.
 Definition c18_moving_thm_scope_inline : fk_case -> bool :=
   (fun k => match k_mode k with
             | LExcl r0 | LIncl r0 =>
-                filt_nu k && filt_irr k && BV.Spec.C01_Moving_Spec.moving_scope_b r0 (k_hist k) &&
+                filt_nu k && filt_irr k &&
+                (BV.Spec.Universe.wf_b (k_hist k) && BV.Spec.Universe.lib_ok_b (LExcl r0) (k_hist k) && negb (ri r0 =? 0) &&
+                 forallb (fun b => (if bparent b =? ri r0 then rn r0 <? bnum b else true) &&
+                                   (if bid b =? ri r0 then bnum b =? rn r0 else true)) (k_hist k)) &&
                 forallb (fun b => memN (bid b) (k_qi k) && memN (bnum b) (k_qh k)) (k_hist k)
             | LNone => false
             end).
